@@ -174,9 +174,11 @@ def child_end_to_end(v, vec, tier, rnd):
     peers = {json.dumps(aset_ordered(c['sa'][0])): c['sa'][0] for c in vec['select'] if c['mine']['proto'] in (2, 3) and len(c['sa']) == 1 and expressible(c['sa'][0])}
     pairs = [(a, b) for a in peers for b in locals_ if (b, a) in table and peers[a]['proto'] == locals_[b]['proto']]
     with_dh = [x for x in pairs if any(t['type'] == 4 for t in peers[x[0]]['transforms']) and any(t['type'] == 4 for t in locals_[x[1]]['transforms'])]
+    ke_mismatch = [x for x in pairs if len([t for t in peers[x[0]]['transforms'] if t['type'] == 4]) == 2 and table[(x[1], x[0])] != []
+                   and [t['id'] for t in table[(x[1], x[0])]['transforms'] if t['type'] == 4][:1] not in ([], [[t['id'] for t in peers[x[0]]['transforms'] if t['type'] == 4][0]])]
     a_only = [x for x in pairs if any(t['type'] == 4 for t in peers[x[0]]['transforms']) and not any(t['type'] == 4 for t in locals_[x[1]]['transforms'])]
-    pairs = rnd.sample(a_only, min(len(a_only), 20 if tier == 'quick' else 300)) + pairs
-    pairs = pairs[:20 if tier == 'quick' else 300] + rnd.sample(with_dh, min(len(with_dh), 25 if tier == 'quick' else 400)) + rnd.sample(pairs, min(len(pairs), 25 if tier == 'quick' else 1200))
+    pairs = rnd.sample(ke_mismatch, min(len(ke_mismatch), 15 if tier == 'quick' else 300)) + rnd.sample(a_only, min(len(a_only), 20 if tier == 'quick' else 300)) + pairs
+    pairs = pairs[:35 if tier == 'quick' else 600] + rnd.sample(with_dh, min(len(with_dh), 25 if tier == 'quick' else 400)) + rnd.sample(pairs, min(len(pairs), 25 if tier == 'quick' else 1200))
     n = 0
     for a_key, b_key in pairs:
         want = table[(b_key, a_key)]
@@ -204,8 +206,30 @@ def child_end_to_end(v, vec, tier, rnd):
                                     signature={'component': 'child-e2e:refuse'})
                     w.dispatch('A', res, 'B')
                     continue
-                if 'INVALID_KE_PAYLOAD' in notifies:
-                    w.dispatch('A', res, 'B')
+                # KeRule: the requester's KE payload is in the first DH group of its offer; if the chosen suite has another group, the answer is
+                # INVALID_KE_PAYLOAD naming the chosen group and nothing else happens; the retry in that group is then served
+                offer_dh = [t['id'] for t in peers[a_key]['transforms'] if t['type'] == 4]
+                want_dh = next((t['id'] for t in want['transforms'] if t['type'] == 4), None)
+                if want_dh is not None and offer_dh and offer_dh[0] != want_dh:
+                    ke = [p for p in m['inner'] if p['t'] == W.NOTIFY and p['ntype'] == 17]
+                    newsa_b = sum(1 for r in w.kernel['B'].requests if r['kind'] == 'NEWSA')
+                    if not ke or struct.unpack('>H', ke[0]['data'])[0] != want_dh or sa is not None:
+                        v.violation(f'{what}: KE payload in group {offer_dh[0]}, chosen suite has group {want_dh}: the answer is not INVALID_KE_PAYLOAD naming the chosen group '
+                                    f'(notifies {notifies}, SA payload {"present" if sa else "absent"}, KE {"present" if has_ke else "absent"})',
+                                    {'A': child_cfg(peers[a_key]), 'B': child_cfg(locals_[b_key])}, signature={'component': 'child-e2e:invalid-ke'})
+                        break
+                    req2 = w.dispatch('A', res, 'B')
+                    if req2 is None:
+                        v.violation(f'{what}: the suggested (offered) group {want_dh} is not retried', {}, signature={'component': 'child-e2e:retry'})
+                        break
+                    res = w.dispatch('B', req2, 'A')
+                    m = W.dec_message(bytes(res), probes.keys_of(b.my_crypto))
+                    sa = next((p for p in m['inner'] if p['t'] == W.SA), None)
+                    got = sorted((t['type'], t['id'], t['keylen'] or 0) for t in sa['proposals'][0]['transforms']) if sa else None
+                    has_ke = any(p['t'] == W.KE for p in m['inner'])
+                elif 'INVALID_KE_PAYLOAD' in notifies:
+                    v.violation(f'{what}: INVALID_KE_PAYLOAD although the KE payload is in the group of the chosen suite', {'A': child_cfg(peers[a_key]), 'B': child_cfg(locals_[b_key])},
+                                signature={'component': 'child-e2e:invalid-ke-spurious'})
                     break
                 if got != aset(want) or has_ke != any(t['type'] == 4 for t in want['transforms']):
                     v.violation(f'{what}: the chosen CHILD_SA suite differs from the specification (configured policy vs offer)',
